@@ -69,6 +69,8 @@ struct World<C> {
     sampler: Arc<dyn Fn(&SpanCtxt) -> bool + Send + Sync>,
     /// VARIANT = setup: the filter `emit_traceparent::setup()` / `setup_with_sampler(..)` installed in the runtime
     rt_filter: Option<&'static (dyn emit::filter::ErasedFilter + Send + Sync)>,
+    /// spans opened so far (selects how each guard is finished)
+    spans: AtomicUsize,
 }
 
 /// The runtime filter, wrapped so that the span's own ids and the verdict are recorded.
@@ -127,8 +129,25 @@ where
         Sexp::List(_) => {
             let (tag, args) = p.as_tagged()?;
             match tag {
-                "span" | "spant" | "spana" => {
+                "span" | "spant" | "spana" | "spanp" => {
                     let log = w.log.clone();
+                    // how the guard is finished rotates with the span count: dropped, `complete()`, or
+                    // `complete_with(..)` an explicit completion — a disabled guard must stay silent in all three
+                    let style = w.spans.fetch_add(1, Ordering::SeqCst) % 3;
+                    let log3 = w.log.clone();
+                    let ctxt3 = &w.ctxt;
+                    let finish = move |guard: SpanGuard<'_, _, _, _>| match style {
+                        0 => drop(guard),
+                        1 => {
+                            guard.complete();
+                        }
+                        _ => {
+                            let emitter = emit::emitter::from_fn(move |evt| {
+                                log3.lock().unwrap().push(format!("(done {})", ids_of_props(evt.props())));
+                            });
+                            guard.complete_with(emit::span::completion::default(emitter, ctxt3));
+                        }
+                    };
                     let emitter = emit::emitter::from_fn(move |evt| {
                         log.lock().unwrap().push(format!("(done {})", ids_of_props(evt.props())));
                     });
@@ -155,17 +174,35 @@ where
                                 }
                                 YieldOnce(false).await;
                             }
-                            drop(guard);
+                            finish(guard);
                             Some(())
                         });
                         return block_on(fut);
+                    }
+                    if tag == "spanp" {
+                        // the body panics after its children; the unwinding drops the guard inside the frame (one
+                        // completion iff enabled) and leaves the frame: afterwards the thread's traceparent is back
+                        let r = std::panic::catch_unwind(std::panic::AssertUnwindSafe(|| {
+                            frame.call(move || -> Option<()> {
+                                guard.start();
+                                for c in args {
+                                    run_prog(w, c)?;
+                                }
+                                let _keep = &guard;
+                                panic!("scripted")
+                            })
+                        }));
+                        return match r {
+                            Err(_) => Some(()),
+                            Ok(x) => x,
+                        };
                     }
                     let body = move || -> Option<()> {
                         guard.start();
                         for c in args {
                             run_prog(w, c)?;
                         }
-                        drop(guard);
+                        finish(guard);
                         Some(())
                     };
                     if tag == "span" {
@@ -209,6 +246,22 @@ where
                         }
                         Some(())
                     })
+                }
+                "pushp" => {
+                    let (tp, cs) = args.split_first()?;
+                    let tp = parse_tp(tp)?;
+                    let r = std::panic::catch_unwind(std::panic::AssertUnwindSafe(|| {
+                        tp.push().call(|| -> Option<()> {
+                            for c in cs {
+                                run_prog(w, c)?;
+                            }
+                            panic!("scripted")
+                        })
+                    }));
+                    match r {
+                        Err(_) => Some(()),
+                        Ok(x) => x,
+                    }
                 }
                 "pushs" => {
                     let (ts, cs) = args.split_first()?;
@@ -409,6 +462,7 @@ where
         outside,
         sampler,
         rt_filter,
+        spans: AtomicUsize::new(0),
     };
     // every case runs on a fresh thread so that no active traceparent leaks in from a previous case
     let out = std::thread::scope(|sc| {
@@ -437,7 +491,7 @@ fn gen_prog(rng: &mut Rng, depth: usize, budget: &mut usize) -> Sexp {
     let n = rng.usize(4);
     let mut cs: Vec<Sexp> = (0..n).map(|_| gen_prog(rng, depth - 1, budget)).collect();
     match rng.below(12) {
-        0..=3 => Sexp::tagged("span", cs),
+        0..=3 => Sexp::tagged(if rng.chance(1, 6) { "spanp" } else { "span" }, cs),
         4 => Sexp::tagged("spana", cs),
         5 => Sexp::tagged("spant", cs),
         6 => Sexp::tagged(if rng.chance(1, 3) { "root" } else { "carry" }, cs),
@@ -462,7 +516,7 @@ fn gen_prog(rng: &mut Rng, depth: usize, budget: &mut usize) -> Sexp {
             let flags = *rng.pick(&[0u64, 1, 1, 1, 2, 3, 255]);
             let mut v = vec![Sexp::list(vec![id(rng, 8), id(rng, 8), Sexp::num(flags)])];
             v.append(&mut cs);
-            Sexp::tagged("push", v)
+            Sexp::tagged(if rng.chance(1, 6) { "pushp" } else { "push" }, v)
         }
     }
 }
